@@ -381,6 +381,14 @@ class UserFcn:
         return hash((self.expr, self.name))
 
 
+def _sameArgument(x, y):
+    """Equality of two call arguments for CachedFcn: arrays by content, and dicts of arrays (one of the forms of input
+    ``fill.numpy`` accepts) entry by entry - ``numpy.array_equal`` on two such dicts raises instead of answering."""
+    if isinstance(x, dict) and isinstance(y, dict):
+        return x.keys() == y.keys() and all(_sameArgument(x[k], y[k]) for k in x)
+    return np.array_equal(x, y)
+
+
 class CachedFcn(UserFcn):
     """Represents a cached UserFcn.
 
@@ -403,13 +411,13 @@ class CachedFcn(UserFcn):
             and len(args) == len(self.lastArgs)
             and (
                 all(x is y for x, y in zip(args, self.lastArgs))
-                or (np is not None and all(np.array_equal(x, y) for x, y in zip(args, self.lastArgs)))
+                or (np is not None and all(_sameArgument(x, y) for x, y in zip(args, self.lastArgs)))
                 or (np is None and all(x == y for x, y in zip(args, self.lastArgs)))
             )
             and set(kwds.keys()) == set(self.lastKwds.keys())
             and (
                 all(kwds[k] is self.lastKwds[k] for k in kwds)
-                or (np is not None and all(np.array_equal(kwds[k], self.lastKwds[k]) for k in kwds))
+                or (np is not None and all(_sameArgument(kwds[k], self.lastKwds[k]) for k in kwds))
                 or (np is None and all(kwds[k] == self.lastKwds[k] for k in kwds))
             )
         ):
